@@ -50,7 +50,7 @@ def is_sym(p):
 
 
 class AbsInt:
-    def __init__(self, body, prog, roles, cache=None, depth=0):
+    def __init__(self, body, prog, roles, cache=None, depth=0, init=None):
         """roles: {arg local index: 'XV'|'YV'|'S'|('X',k)|...} abstract parity of each argument"""
         self.b = body
         self.prog = prog
@@ -61,6 +61,7 @@ class AbsInt:
         self.depth = depth
         self.unknown = []   # callees that produced T (diagnosis)
         self._ctrl = None
+        self.init = init or {}
         self._run()
 
     # ------------------------------------------------------------ fixpoint
@@ -70,7 +71,7 @@ class AbsInt:
             self.val[l] = BOT
         for l in range(1, b.arg_count + 1):
             r = self.roles.get(l, "S")
-            self.val[l] = (r, "T", "T") if r != "Z0" else ZERO
+            self.val[l] = self.init[l] if l in self.init else ((r, "T", "T") if r != "Z0" else ZERO)
         changed = True
         rounds = 0
         while changed and rounds < 60:
@@ -145,6 +146,25 @@ class AbsInt:
         never = False
         from .guards import _cond as gc, ATOMS, NEG
         c = gc(None, term)
+        # abstract view of the compared operands (works inside closures, where elements arrive as zip items)
+        if o["k"] in ("copy", "move") and not o["p"]["pr"]:
+            ds = self.b.defs.get(o["p"]["l"], [])
+            if len(ds) == 1:
+                d = ds[0]
+                opn, ops = None, None
+                if d.kind == "call" and d.data.get("f") and d.data["f"]["path"] in self.CMPS and len(d.data["args"]) == 2:
+                    opn, ops = self.CMPS[d.data["f"]["path"]], d.data["args"]
+                elif d.kind == "assign" and d.data["r"]["k"] == "bin" and d.data["r"]["op"] in ("Eq", "Ne", "Lt", "Le", "Gt", "Ge"):
+                    opn, ops = d.data["r"]["op"], [d.data["r"]["a"], d.data["r"]["b"]]
+                if opn:
+                    pa, pb = self.operand(ops[0])[0], self.operand(ops[1])[0]
+                    if isinstance(pa, tuple) and isinstance(pb, tuple) and len(pa) == 2 and len(pb) == 2 and pa[1] == pb[1] \
+                            and {pa[0], pb[0]} == {"X", "Y"}:
+                        rel = {"Eq": "==", "Ne": "!=", "Lt": "<", "Le": "<=", "Gt": ">", "Ge": ">="}[opn]
+                        if neg:
+                            rel = NEG[rel]
+                        r_here = rel if succ == t["otherwise"] else NEG[rel]
+                        return ("S" if opn in ("Eq", "Ne") else "T"), ("z" not in ATOMS[r_here])
         if c and o["k"] in ("copy", "move"):
             rel = c[1] if not neg else NEG[c[1]]
             # which relation does `succ` assert?
@@ -175,18 +195,45 @@ class AbsInt:
     # ---------------------------------------------------------------- values
     def place(self, p):
         v = self.val.get(p["l"], BOT)
+        after_dc = False
         for e in p["pr"]:
             if e == "*":
                 continue
             if isinstance(e, dict) and "i" in e:
                 kt = self.res.local(e["i"])
                 v = self._elem(v, self.val.get(e["i"], BOT), kt)
-            elif isinstance(e, dict) and ("f" in e or "dc" in e or "ci" in e):
-                v = self._field(v)
+                after_dc = False
+            elif isinstance(e, dict) and "dc" in e:
+                after_dc = True
+            elif isinstance(e, dict) and "f" in e:
+                if after_dc and e["f"] == 0:
+                    after_dc = False   # payload of Some(..)/Continue(..): the wrapped value itself
+                    continue
+                v = self._field(v, e["f"])
+                after_dc = False
+            elif isinstance(e, dict) and "ci" in e:
+                v = self._field(v, e["ci"])
         return v
 
-    def _field(self, v):
+    def _field(self, v, idx=None):
         par = v[0]
+        if isinstance(par, tuple) and par[0] == "PAIR":
+            # item of zip(X-elements, Y-elements): component 0 / 1 are the elements at the same position
+            order, k = par[1], par[2]
+            if idx in (0, 1):
+                return ((order[idx], k), "T", "T")
+            return TOP
+        if isinstance(par, tuple) and par[0] == "EITEM":
+            # item of enumerate(it): (index, inner item)
+            if idx == 0:
+                return ("S", "T", "NN")
+            if idx == 1:
+                return (par[1], v[1], v[2])
+            return TOP
+        if isinstance(par, tuple) and par[0] == "ENV":
+            if idx is not None and idx < len(par[1]):
+                return par[1][idx]
+            return TOP
         if par in ("XV", "YV", "SV", "AV") or isinstance(par, tuple):
             return ("T", "T", "T")
         return v
@@ -256,7 +303,8 @@ class AbsInt:
             return self.place(r["p"])
         if k == "discr":
             v = self.place(r["p"])
-            return (v[0] if v[0] in ("S", "Z0", B) else ("S" if v[0] in ("SV",) else "T"), "T", "T")
+            # whether an iterator over X / Y / zip(X,Y) yields another item depends on the (equal) lengths only
+            return (v[0] if v[0] in ("S", "Z0", B) else ("S" if (v[0] in ("SV", "AV", "XV", "YV") or isinstance(v[0], tuple)) else "T"), "T", "T")
         if k == "cast":
             v = self.operand(r["o"])
             return v
@@ -387,6 +435,9 @@ class AbsInt:
             if nm in ("one", "two", "half", "epsilon", "max_value", "infinity", "min_positive_value", "new", "default"):
                 return ("S", "T", "NN")
             return SYM
+        it = self._iter_op(p, av, args, t, is_mut)
+        if it is not None:
+            return it
         if p in self.ARITH and len(av) == 2:
             return self._arith(self.ARITH[p], av[0], av[1], args[0], args[1])
         if p in self.ASSIGN and len(av) == 2:
@@ -423,7 +474,7 @@ class AbsInt:
                        "::borrow", "::to_vec", "::as_slice", "::into_iter", "::iter", "::copied", "::cloned", "::unwrap_or",
                        "::from_usize", "::from_i64", "::from_u16", "::from_f64", "::from_u64", "::from_i32", "::from_u32",
                        "::to_f64", "::to_usize", "::to_i64", "::branch", "::from_residual", "::enumerate", "::rev", "::take",
-                       "::skip", "::zip", "::by_ref", "::as_mut", "::iter_mut", "::as_mut_slice")):
+                       "::skip", "::zip", "::by_ref", "::as_mut", "::iter_mut", "::as_mut_slice", "Iterator::collect", "::into_boxed_slice", "::into_vec")):
             v = BOT
             for x in av:
                 v = join(v, x)
@@ -474,6 +525,133 @@ class AbsInt:
         if all(is_sym(v[0]) or v[0] in ("SV",) for v in av):
             return SYM
         return self._unknown(t, av)
+
+    # ------------------------------------------------------------ iterator chains and closures
+    def _closure(self, o):
+        term = self.res.operand(o)
+        from .prov import alts
+        for a in alts(term):
+            if a[0] == "agg" and a[1].startswith("closure:"):
+                return self.prog.get(a[1][len("closure:"):])
+        return None
+
+    def _closure_env(self, o):
+        """abstract values of the captured variables, in capture order"""
+        if o["k"] not in ("copy", "move") or o["p"]["pr"]:
+            return ()
+        for d in self.b.defs.get(o["p"]["l"], []):
+            if d.kind == "assign" and d.data["r"]["k"] == "agg" and d.data["r"]["ak"] == "closure":
+                return tuple(self.operand(x) for x in d.data["r"]["ops"])
+        return ()
+
+    def _apply_closure(self, o, arg_vals):
+        """abstract return value of the closure operand `o` applied to argument abstract values"""
+        cb = self._closure(o)
+        if cb is None or self.depth >= 5:
+            return TOP
+        env = self._closure_env(o)
+        roles = {1: ("ENV", env)}
+        extra = {}
+        if cb.arg_count == 2 and len(arg_vals) > 1:
+            # closures take their arguments as one tuple parameter only at the call ABI level; MIR closure bodies have
+            # one local per declared parameter
+            pass
+        for i, v in enumerate(arg_vals):
+            roles[2 + i] = v[0]
+            extra[2 + i] = v
+        sub = AbsInt(cb, self.prog, roles, self.cache, self.depth + 1, init=extra)
+        self.unknown.extend(sub.unknown)
+        return sub.val.get(0, TOP)
+
+    @staticmethod
+    def _item_of(itv, site):
+        """abstract value of one item drawn from an iterator value"""
+        par = itv[0]
+        if par == "SV":
+            return ("S", itv[1], itv[2])
+        if par == "AV":
+            return ("A", itv[1], "T")
+        if par in ("S", "Z0", B):
+            return (par, itv[1], itv[2])
+        if isinstance(par, tuple) and par[0] == "ZIP":
+            return (("PAIR", par[1], ("zipitem", site)), "T", "T")
+        if isinstance(par, tuple) and par[0] == "ENUM":
+            inner = AbsInt._item_of((par[1], itv[1], itv[2]), site)
+            return (("EITEM", inner[0]), inner[1], inner[2])
+        if par == "XV":
+            return (("X", ("iteritem", site)), "T", "T")
+        if par == "YV":
+            return (("Y", ("iteritem", site)), "T", "T")
+        return TOP
+
+    def _iter_op(self, p, av, args, t, is_mut):
+        site = self.b.path + "@" + str(t.get("s"))
+        if p.endswith("Iterator::zip") and len(av) == 2:
+            a, b = av[0][0], av[1][0]
+            if {a, b} == {"XV", "YV"}:
+                return (("ZIP", "XY" if a == "XV" else "YX"), "T", "T")
+            if a in ("SV", "S", "Z0") and b in ("SV", "S", "Z0"):
+                return ("SV", "T", "T")
+            if a == b == "AV":
+                return ("AV", "Z", "T")
+            return None
+        if p.endswith("Iterator::enumerate") and len(av) == 1:
+            par = av[0][0]
+            if isinstance(par, tuple) or par in ("SV", "AV", "XV", "YV"):
+                return (("ENUM", par), av[0][1], av[0][2])
+            return None
+        if p.endswith(("Iterator::next", "DoubleEndedIterator::next_back")) and not is_mut and av:
+            par = av[0][0]
+            if isinstance(par, tuple) and par[0] in ("ZIP", "ENUM"):
+                return self._item_of(av[0], site)
+            return None
+        if p.endswith(("Iterator::next", "DoubleEndedIterator::next_back")) and is_mut and av:
+            par = av[0][0]
+            if isinstance(par, tuple) and par[0] in ("ZIP", "ENUM"):
+                return av[0]
+            return None
+        if p.endswith(("Iterator::map", "Iterator::filter_map")) and len(av) == 2:
+            item = self._item_of(av[0], site)
+            if item == TOP:
+                return None
+            r = self._apply_closure(args[1], [item])
+            if r[0] in ("S", "Z0"):
+                return ("SV", r[1], r[2])
+            if r[0] == "A":
+                return ("AV", r[1], "T")
+            return TOP
+        if p.endswith(("Iterator::filter", "Iterator::take_while", "Iterator::skip_while")) and len(av) == 2:
+            item = self._item_of(av[0], site)
+            if item == TOP:
+                return None
+            r = self._apply_closure(args[1], [item])
+            return av[0] if is_sym(r[0]) else TOP
+        if p.endswith(("Iterator::all", "Iterator::any", "Iterator::position", "Iterator::for_each")) and len(av) == 2:
+            item = self._item_of(av[0], site)
+            if item == TOP:
+                return None
+            r = self._apply_closure(args[1], [item])
+            return ("S", "T", "T") if is_sym(r[0]) else TOP
+        if p.endswith(("Iterator::sum", "Iterator::count", "Iterator::product", "Iterator::last", "Iterator::max", "Iterator::min")) and len(av) == 1:
+            par = av[0][0]
+            if par == "SV":
+                return ("S", av[0][1] if p.endswith("sum") else "T", av[0][2] if p.endswith(("sum", "count")) else "T")
+            if par == "AV" and p.endswith("sum"):
+                return ("A", av[0][1], "T")
+            return None
+        if p.endswith("Iterator::fold") and len(av) == 3:
+            item = self._item_of(av[0], site)
+            if item == TOP:
+                return None
+            acc = av[1]
+            for _ in range(3):
+                r = self._apply_closure(args[2], [acc, item])
+                nacc = join(acc, r)
+                if nacc == acc:
+                    break
+                acc = nacc
+            return acc
+        return None
 
     def _positive_exponent(self, o):
         """the exponent operand is provably > 0: from_u16(p) under a dominating p >= 1 guard, or 1/that, or a positive literal"""
